@@ -45,6 +45,10 @@ type handle struct {
 	viaNum  protoreflect.FieldNumber // message parent: field number
 	viaKey  string                   // map parent: canonical key
 	viaIdx  int                      // list parent: index
+	// detached values obtained from NewField
+	detachedOf int
+	detachedFd protoreflect.FieldDescriptor
+	vals       [3]protoreflect.Value
 }
 
 type machine struct {
@@ -327,6 +331,21 @@ func (mc *machine) apply(step int, op Op) error {
 	}
 	h := mc.h[op.H]
 	what := opString(op)
+	if op.Op == "attach" {
+		if h.detachedFd == nil || h.detachedOf >= len(mc.h) || !mc.h[h.detachedOf].valid || !mc.h[h.detachedOf].mutable {
+			return nil
+		}
+		owner := mc.h[h.detachedOf]
+		fd := h.detachedFd
+		mc.invalidateField(h.detachedOf, fd)
+		// after Set it is unspecified whether the stored value aliases the
+		// detached one: the detached handle and everything derived from it go
+		h.valid = false
+		mc.invalidateDerived(op.H, func(*handle) bool { return true })
+		mc.mutated = true
+		vals := h.vals
+		return mc.judge(what, tri(func(s int) string { owner.m[s].Set(fd, vals[s]); return "" }))
+	}
 	switch h.kind {
 	case 'm':
 		var fd protoreflect.FieldDescriptor
@@ -357,12 +376,14 @@ func (mc *machine) apply(step int, op Op) error {
 			}
 			if out[sP].pan == "" {
 				switch {
+				// Get on a populated composite returns the value itself, so the
+				// handle is as writable as its parent (the voting rule still guards)
 				case fd.IsList() && vals[sD].List().IsValid():
-					mc.register('l', op.H, fd, vals, false, fd.Number(), "", 0)
+					mc.register('l', op.H, fd, vals, h.mutable, fd.Number(), "", 0)
 				case fd.IsMap() && vals[sD].Map().IsValid():
-					mc.register('x', op.H, fd, vals, false, fd.Number(), "", 0)
+					mc.register('x', op.H, fd, vals, h.mutable, fd.Number(), "", 0)
 				case fd.Message() != nil && !fd.IsList() && !fd.IsMap() && vals[sD].Message().IsValid():
-					mc.register('m', op.H, fd, vals, false, fd.Number(), "", 0)
+					mc.register('m', op.H, fd, vals, h.mutable, fd.Number(), "", 0)
 				}
 			}
 			return nil
@@ -470,6 +491,33 @@ func (mc *machine) apply(step int, op Op) error {
 					k = 'x'
 				}
 				mc.register(k, op.H, fd, vals, true, fd.Number(), "", 0)
+			}
+			return nil
+		case "newdetached":
+			// NewField value kept as a detached handle: filled through its own
+			// methods and stored later with "attach"
+			if !(fd.IsList() || fd.IsMap() || fd.Message() != nil) {
+				return nil
+			}
+			var vals [3]protoreflect.Value
+			out := tri(func(s int) string {
+				vals[s] = h.m[s].NewField(fd)
+				return ""
+			})
+			if err := mc.judge(what, out); err != nil || mc.diverged != "" {
+				return err
+			}
+			if out[sP].pan == "" {
+				k := byte('m')
+				if fd.IsList() {
+					k = 'l'
+				} else if fd.IsMap() {
+					k = 'x'
+				}
+				id := mc.register(k, -2, fd, vals, true, 0, "", -1)
+				mc.h[id].detachedOf = op.H
+				mc.h[id].detachedFd = fd
+				mc.h[id].vals = vals
 			}
 			return nil
 		case "newfield":
@@ -775,6 +823,10 @@ func (mc *machine) drawOp(rt *rapid.T) Op {
 	}
 	h := mc.h[hi]
 	op := Op{H: hi}
+	if h.detachedFd != nil && rapid.IntRange(0, 2).Draw(rt, "attach") == 0 {
+		op.Op = "attach"
+		return op
+	}
 	switch h.kind {
 	case 'm':
 		fds := h.md.Fields()
@@ -787,6 +839,9 @@ func (mc *machine) drawOp(rt *rapid.T) Op {
 		var choices []string
 		composite := fd.IsList() || fd.IsMap() || fd.Message() != nil
 		choices = append(choices, "has", "get", "get", "newfield", "range", "rangestop", "getunknown", "isvalid")
+		if composite && h.mutable {
+			choices = append(choices, "newdetached")
+		}
 		if h.md.Oneofs().Len() > 0 {
 			choices = append(choices, "which", "which")
 		}
@@ -794,8 +849,12 @@ func (mc *machine) drawOp(rt *rapid.T) Op {
 		if contract {
 			// contract-mandated panics: rare, they tend to end a history
 			switch {
-			case composite:
+			case fd.IsList() || fd.IsMap():
 				choices = []string{"setempty", "foreign"}
+			case composite:
+				// Set with an empty read-only *message*: dynamicpb panics, protoimpl
+				// does not - the references disagree, nothing could be asserted
+				choices = []string{"foreign"}
 			default:
 				choices = []string{"mutscalar", "foreign"}
 			}
